@@ -235,11 +235,19 @@ impl TypeCollector {
             .fields
             .iter()
             .map(|field| {
-                FieldContext::new(config).from_field_info(
-                    field,
-                    &struct_info.serde_rename_all,
-                    visitor,
-                )
+                if struct_info.is_enum {
+                    FieldContext::new(config).from_variant_info(
+                        field,
+                        &struct_info.serde_rename_all,
+                        visitor,
+                    )
+                } else {
+                    FieldContext::new(config).from_field_info(
+                        field,
+                        &struct_info.serde_rename_all,
+                        visitor,
+                    )
+                }
             })
             .collect()
     }
